@@ -73,7 +73,10 @@ def programs(draw):
         for _ in range(nw):
             a, b = draw(window_edge()), draw(window_edge())
             wins.append([a, b])
-        choppers.append({"distance": d, "windows": wins})
+        int_distance = draw(st.sampled_from([False, False, False, True]))
+        if int_distance:
+            d = round(d, 2)  # whole centimetres, so that the integer variable holds the distance exactly
+        choppers.append({"distance": d, "windows": wins, "int_distance": int_distance})
     # program: sorted choppers cut into consecutive groups; each group chopped in one call
     order = sorted(range(nch), key=lambda i: (choppers[i]["distance"], i))
     ops = []
@@ -148,12 +151,16 @@ def build(case):
     b.spec = []  # (distance in m, opens in s, closes in s)
     for ch in case["choppers"]:
         d_st = ch["distance"] / D_UNITS[du]
-        dist = sc.scalar(d_st, unit=du)
-        d_m = float(dist.to(unit="m").value)
+        if ch.get("int_distance") and du != "m":
+            # whole millimetres / centimetres in an integer variable
+            dist = sc.scalar(round(d_st), unit=du, dtype="int64")
+        else:
+            dist = sc.scalar(d_st, unit=du)
+        d_m = float(dist.value) * D_UNITS[du]   # exact factor; not scipp's integer unit conversion
         lo = b.tmin + a * d_m * b.wmin
         hi = b.tmax + a * d_m * b.wmax
         ext = max(hi - lo, 1e-6)
-        vt = cc.propagate_times(src.time, src.wavelength, dist.to(unit="m")).values
+        vt = cc.propagate_times(src.time, src.wavelength, sc.scalar(d_m, unit="m")).values
         opens, closes = [], []
         for w in ch["windows"]:
             e = []
@@ -303,6 +310,8 @@ def base_labels(case, seq):
     if any("vertex" in e for c in case["choppers"] for w in c["windows"] for e in w):
         labs.append("window-on-vertex")
     ds = [c["distance"] for c in case["choppers"]]
+    if any(c.get("int_distance") for c in case["choppers"]) and case["d_unit"] != "m":
+        labs.append("int-distance")
     if len(set(ds)) < len(ds):
         labs.append("equal-distances")
     if any(d == 0.0 for d in ds):
